@@ -36,7 +36,7 @@ TEXTS = {"T0": T0, "T0w": T0 + "  \n", "T1": "model B\n  Real y(start = 2);\nequ
          "T2": 'model D "first line\nsecond line"\n  Real z = 3;\nend D;\n',
          "T2c": 'model D "first line\r\nsecond line"\r\n  Real z = 3;\r\nend D;\r\n'}
 CUR, OLD = "9.9.9", "9.9.8"
-PAYLOADS = ["valid", "garbage", "truncated", "missing-class", "missing-module", "empty-stack"]
+PAYLOADS = ["valid", "garbage", "truncated", "missing-class", "missing-module", "empty-stack", "bad-utf8", "bad-int", "bad-call"]
 AGES = {"expired": -40 * 86400, "day-old": -2 * 86400, "recent": -3600}
 MODELS_OK = "CREATE TABLE models (txt_hash TEXT, pymoca_version TEXT, data BLOB, last_hit TIMESTAMP INTEGER, PRIMARY KEY (txt_hash, pymoca_version))"
 MODELS_WRONG = "CREATE TABLE models (txt_hash TEXT, data BLOB, last_hit INTEGER, PRIMARY KEY (txt_hash))"
@@ -70,10 +70,51 @@ def payload(kind, text_name):
         return b"cpymoca.ast\nNoSuchClassAnymore\n."
     if kind == "missing-module":
         return b"cpymoca_module_that_was_removed\nX\n."
+    if kind == "bad-utf8":
+        return b"\x80\x04\x8c\x02\xff\xfe."          # a rotten byte inside a string: UnicodeDecodeError
+    if kind == "bad-int":
+        return b"I12x4\n."                           # a damaged integer: ValueError
+    if kind == "bad-call":
+        return b"cbuiltins\nlen\n(tR."               # a constructor call that no longer fits: TypeError
     return b"."  # STOP on an empty stack
 
 
+def _two_row_db(path, order):
+    conn = sqlite3.connect(path)
+    c = conn.cursor()
+    c.execute(MODELS_OK)
+    c.execute(META_OK)
+    now = time.time_ns() // 1000
+    c.execute("INSERT INTO metadata VALUES ('created_at', ?)", (now - 10 ** 9,))
+    c.execute("INSERT INTO metadata VALUES ('last_prune', ?)", (now - 10 ** 8,))
+    for tname in order:
+        c.execute("INSERT INTO models VALUES (?, ?, ?, ?)", (sha(tname), CUR, payload("valid", tname), now - 3600 * 10 ** 6))
+    conn.commit()
+    root = c.execute("SELECT rootpage FROM sqlite_master WHERE name='sqlite_autoindex_models_1'").fetchone()[0]
+    page = c.execute("PRAGMA page_size").fetchone()[0]
+    conn.close()
+    return root, page
+
+
+def build_index_mismatch(path):
+    """A well-formed SQLite file whose primary-key index disagrees with the table: the index page of a database
+    that inserted (T1, T0) is spliced into one that inserted (T0, T1), so the index sends T0's key to T1's row."""
+    other = path + ".other"
+    root, page = _two_row_db(path, ["T0", "T1"])
+    root2, page2 = _two_row_db(other, ["T1", "T0"])
+    with open(other, "rb") as f:
+        f.seek((root2 - 1) * page2)
+        blob = f.read(page2)
+    with open(path, "r+b") as f:
+        f.seek((root - 1) * page)
+        f.write(blob)
+    os.remove(other)
+
+
 def build_db(path, st):
+    if st["corrupt"] == 2:
+        build_index_mismatch(path)
+        return
     if st["corrupt"]:
         with open(path, "wb") as f:
             f.write(b"SQLite format 3\x00" + b"\xde\xad\xbe\xef" * 300)
@@ -134,7 +175,7 @@ def cause(st):
     """Class-level signature of what is unusual in the pre-state (stable case ids)."""
     parts = []
     if st["corrupt"]:
-        parts.append("corrupt-file")
+        parts.append("corrupt-file" if st["corrupt"] == 1 else "index-disagrees-with-table")
     if st["models"] != "ok":
         parts.append("models-" + st["models"])
     if st["meta"] != "ok":
@@ -187,25 +228,29 @@ def states(tier):
     MODELS = ["ok", "wrong", "missing", "nofile"]
     META = ["ok", "nokeys", "wrong", "missing"]
     names = ["p", "r1", "k1", "v1", "pl1", "ag1", "r2", "models", "meta", "init", "exp", "upd", "ver", "corrupt"]
-    rng = {"p": (0, 3), "r1": (0, 1), "k1": (0, 1), "v1": (0, 1), "pl1": (0, 5), "ag1": (0, 2), "r2": (0, 2), "models": (0, 3), "meta": (0, 3),
-           "init": (0, 1), "exp": (0, 1), "upd": (0, 1), "ver": (0, 2), "corrupt": (0, 1)}
+    rng = {"p": (0, 3), "r1": (0, 1), "k1": (0, 1), "v1": (0, 1), "pl1": (0, 8), "ag1": (0, 2), "r2": (0, 2), "models": (0, 3), "meta": (0, 3),
+           "init": (0, 1), "exp": (0, 1), "upd": (0, 1), "ver": (0, 2), "corrupt": (0, 2)}
     import z3
 
     def cons(v):
         c = []
         # rows only exist in a models table of the right layout; normalise unused dimensions
-        no_rows = z3.Or(v["models"] != 0, v["corrupt"] == 1)
+        no_rows = z3.Or(v["models"] != 0, v["corrupt"] != 0)
         c.append(z3.Implies(no_rows, z3.And(v["r1"] == 0, v["r2"] == 0)))
         c.append(z3.Implies(v["r1"] == 0, z3.And(v["k1"] == 0, v["v1"] == 0, v["pl1"] == 0, v["ag1"] == 0, v["r2"] == 0)))
-        c.append(z3.Implies(v["corrupt"] == 1, z3.And(v["models"] == 0, v["meta"] == 0)))
+        c.append(z3.Implies(v["corrupt"] != 0, z3.And(v["models"] == 0, v["meta"] == 0)))
         c.append(z3.Implies(v["models"] == 3, v["meta"] == 3))  # no file at all
+        # an index that disagrees with its table is only detectable by the first-use integrity check
+        c.append(z3.Implies(v["corrupt"] == 2, v["init"] == 0))
         # invariant: an intact row never belongs to a text with a syntax error
         c.append(z3.Implies(z3.And(v["p"] == 2, v["r1"] == 1, v["k1"] == 0), v["pl1"] != 0))
         # dirty version / flags only matter with a usable table: keep them to the plain-layout states
-        c.append(z3.Implies(z3.Or(v["models"] != 0, v["meta"] != 0, v["corrupt"] == 1), z3.And(v["exp"] == 1, v["upd"] == 0)))
+        c.append(z3.Implies(z3.Or(v["models"] != 0, v["meta"] != 0, v["corrupt"] != 0), z3.And(v["exp"] == 1, v["upd"] == 0)))
         c.append(z3.Implies(v["ver"] == 2, z3.And(v["exp"] == 1, v["upd"] == 0, v["r2"] == 0)))
         if tier == "quick":
             c.append(z3.Implies(v["r2"] != 0, z3.And(v["pl1"] <= 1, v["upd"] == 0)))
+            # damaged payload kinds beyond the first two: only as a recent row of the current version, default flags
+            c.append(z3.Implies(v["pl1"] >= 2, z3.And(v["ag1"] == 2, v["v1"] == 0, v["upd"] == 0, v["exp"] == 1, v["ver"] == 0)))
         return z3.And(c)
     out = []
     for t in all_models(names, rng, cons):
@@ -220,7 +265,7 @@ def states(tier):
             elif v["r2"] == 2:
                 rows.append(("T1" if rows[0][0] != "T1" else "T0", CUR, "valid", "expired"))
         out.append(dict(p=p, rows=rows, models=MODELS[v["models"]], meta=META[v["meta"]], init=bool(v["init"]), exp=[0, 30][v["exp"]], upd=bool(v["upd"]),
-                        version=[CUR, OLD, CUR + ".dirty"][v["ver"]], corrupt=bool(v["corrupt"])))
+                        version=[CUR, OLD, CUR + ".dirty"][v["ver"]], corrupt=v["corrupt"]))
     return out
 
 
@@ -259,10 +304,22 @@ def sequence(col, st, d):
     path = os.path.join(d, "cache.db")
     parser.parse.initialized_dbs = set()
     pymoca.__version__ = CUR
-    ev, p1, p2 = st["seq"]
-    case = f"seq:{p1};{ev};{p2}"
+    ev, p1, p2 = st["seq"][:3]
+    style = st["seq"][3] if len(st["seq"]) > 3 else "absolute"
+    case = f"seq:{p1};{ev};{p2}" + ("" if style == "absolute" else f";folder-{style}")
+    folder = Path(d)
+    cwd = os.getcwd()
+    if style == "relative":
+        os.chdir(d)
+        folder = Path(".")
+    elif style == "symlink":
+        link = d + "_link"
+        if os.path.islink(link):
+            os.remove(link)
+        os.symlink(d, link)
+        folder = Path(link)
     try:
-        parser.parse(TEXTS[p1], model_cache_folder=Path(d), cache_db="cache.db")
+        parser.parse(TEXTS[p1], model_cache_folder=folder, cache_db="cache.db")
         if ev == "corrupt-file":
             open(path, "wb").write(b"SQLite format 3\x00" + b"\xde\xad\xbe\xef" * 300)
         elif ev == "drop-models":
@@ -286,10 +343,16 @@ def sequence(col, st, d):
             elif sub == "drop-models":
                 c = sqlite3.connect(path); c.execute("DROP TABLE models"); c.commit(); c.close()
             parser.parse.initialized_dbs = set()
-        got = parser.parse(TEXTS[p2], model_cache_folder=Path(d), cache_db="cache.db")
-    except Exception as e:
-        col.violation(case + ":raises:" + type(e).__name__, f"history parse({p1}); {ev}; parse({p2}) raises {type(e).__name__}: {str(e)[:100]}", {"state": st})
+        got = parser.parse(TEXTS[p2], model_cache_folder=folder, cache_db="cache.db")
+    except BaseException as e:
+        if not isinstance(e, (Exception, RecursionError)):
+            raise
+        col.violation(case + ":raises:" + type(e).__name__, f"history parse({p1}); {ev}; parse({p2}) [cache folder given as {style} path] raises {type(e).__name__}: {str(e)[:100]}", {"state": st})
         return
+    finally:
+        os.chdir(cwd)
+        if style == "symlink" and os.path.islink(d + "_link"):
+            os.remove(d + "_link")
     want = ref_parse(p2)[0]
     gj = None if got is None else json.dumps(ast.Node.to_json(got), sort_keys=True, default=str)
     if gj != want:
@@ -303,6 +366,11 @@ def sequences():
                "corrupt-file+reload", "drop-models+reload"):
         for p1, p2 in (("T0", "T0"), ("T0", "T0w"), ("T0", "B0"), ("B0", "T0"), ("T0", "T1"), ("T2", "T2c"), ("T2c", "T2")):
             out.append({"seq": (ev, p1, p2)})
+    # the cache folder given as a relative path / through a symbolic link, database damaged between the two calls
+    for style in ("relative", "symlink"):
+        for ev in ("none", "corrupt-file", "drop-models", "wrong-layout", "delete-file", "reload"):
+            for p1, p2 in (("T0", "T0"), ("T0", "T1")):
+                out.append({"seq": (ev, p1, p2, style)})
     return out
 
 
@@ -336,7 +404,7 @@ def main():
     cov["bounds"] = ("parsed text in {valid, same + trailing whitespace, syntax error, CRLF twin of an LF text with a two-line string}; 0-2 rows: row 1 keyed by the parsed text or another text x version {current, other} x payload {intact, "
                      "garbage, truncated, missing class, missing module, empty-stack pickle} x age {expired, a day old, recent}, row 2 {none, same text other version, other text expired}; "
                      "models table {ok, wrong columns, missing, no file}; metadata table {ok, no keys, wrong columns, missing}; corrupt file; database already initialised by this process "
-                     "or not; version {current, other, dirty}; cache_expiration_days {0, 30}; always_update_last_hit; plus 55 two-step histories (damage / version change / reload between two parses)")
+                     "or not; version {current, other, dirty}; cache_expiration_days {0, 30}; always_update_last_hit; corrupt also as a well-formed file whose index disagrees with its table; plus ~100 two-step histories (damage / version change / reload between two parses; cache folder as absolute, relative or symlinked path)")
     rep.assumptions += ["pre-states satisfy the invariant 'an intact row keyed by (sha256(t), v) holds parse(t) and that is not None' (re-checked on every post-state)",
                         "sqlite3 and pickle run for real (C code): no value-level symbolic execution; z3 only enumerates the pre-state space",
                         "sha256 collisions and concurrent access (C02) are outside the claim"]
